@@ -247,3 +247,23 @@ package tmconsensus
 //@   ensures equal-means-same-hashes: result ==> bytes(v.PubKeyHash) == bytes(other.PubKeyHash) && bytes(v.VotePowerHash) == bytes(other.VotePowerHash) &&
 //@       len(v.Validators) == len(other.Validators)
 //@   modifies nothing
+
+// ---- C17/C05: the sparse form of a vote proof carries the view's height, round and one entry per target ----
+//@ iface gcrypto.CommonMessageSignatureProof.PubKeyHash(p)
+//@   modifies nothing
+
+//@ func PrevoteProof.AsSparse
+//@   property C17
+//@   ensures same-position: result0.Height == p.Height && result0.Round == p.Round
+//@   ensures one-entry-per-target: result1 == nil ==> (forall h string :: (h in result0.Proofs) == (h in p.Proofs))
+//@   modifies nothing
+//@   loop 1 invariant fresh(out.Proofs) && out.Height == p.Height && out.Round == p.Round &&
+//@       (forall h string :: (h in out.Proofs) == visited(1)[h]) && (forall h string :: visited(1)[h] ==> h in p.Proofs)
+
+//@ func PrecommitProof.AsSparse
+//@   property C17
+//@   ensures same-position: result0.Height == p.Height && result0.Round == p.Round
+//@   ensures one-entry-per-target: result1 == nil ==> (forall h string :: (h in result0.Proofs) == (h in p.Proofs))
+//@   modifies nothing
+//@   loop 1 invariant fresh(out.Proofs) && out.Height == p.Height && out.Round == p.Round &&
+//@       (forall h string :: (h in out.Proofs) == visited(1)[h]) && (forall h string :: visited(1)[h] ==> h in p.Proofs)
